@@ -44,6 +44,7 @@ func init() {
 	defStopServer()
 	defRestartServer()
 	defSetupServer()
-	Pkg.Initialize(nil) // lock
+	// Initialize only locks the package when given a local object.
+	Pkg.Initialize(nil, &Connection{}) // lock
 	slip.AddPackage(&Pkg)
 }
